@@ -18,11 +18,13 @@
      - UPPER BOUND (C08_rayleigh_gap, C08_below_bound_Z): if lambda G - A = B^H B (lambda is an upper bound of the pencil:
        lambda G - A positive semi-definite, Cholesky), then for every x  lambda x^H G x - x^H A x = |B x|^2; with Ritz
        consistency the returned value mu satisfies (lambda - mu) x^H G x = |B x|^2 >= 0 (instance over Z).
+     - FIXED POINT (C08_fixed_point): if the current iterate x = P y0 is an eigenvector, A x = lambda x, and the frame is an
+       isometry, y0 is an eigenvector of the micro matrix P^H A P with the same eigenvalue.
    NOT proved (model + oracle-tape correspondence + side check): that a positive semi-definite matrix is a Gram matrix
-   (classical), that the extremal micro eigenvalue is selected, the fixed-point clause, convergence of the inverse power iteration. *)
+   (classical), that the extremal micro eigenvalue is selected (so that the fixed point is the one returned), convergence of the inverse power iteration. *)
 From Coq Require Import ZArith List Lia Arith.
 Import ListNotations.
-Require Import Ring Sums Matrix Core Chain Sweep SweepProof TensordotProof Env EnvProof EvpProof DeflationProof FullRankProof RayleighBound.
+Require Import Ring Sums Matrix Core Chain Sweep SweepProof TensordotProof Env EnvProof EvpProof DeflationProof FullRankProof RayleighBound FixedPoint.
 Open Scope cr_scope.
 
 Theorem C08_ritz_consistent (R : cring) (A0 G0 : core R) (Xs As Gs : list (core R)) m (yv : nat -> R) (lam : R) :
@@ -89,3 +91,11 @@ Definition exB8c : M Zring := fun _ j => if Nat.eqb j 0 then 1%Z else (-1)%Z.
 Example ex_certificate : forall i j, (i < 2)%nat -> (j < 2)%nat ->
   (2 * exG8c i j - exA8c i j)%Z = @sum Zring 1 (fun k => (exB8c k i * exB8c k j)%Z).
 Proof. intros [|[|i]] [|[|j]] Hi Hj; try lia; vm_compute; reflexivity. Qed.
+
+(* fixed point: an iterate x = P y0 with A x = lambda x and an isometric frame P gives the micro eigenpair (lambda, y0) *)
+Theorem C08_fixed_point (R : cring) (n r : nat) (P A : M R) (y0 : nat -> R) (lam : R) :
+  (forall k l, (k < r)%nat -> (l < r)%nat -> sum n (fun i => cconj R (P i k) * P i l) = delta k l) ->
+  (forall i, (i < n)%nat -> sum n (fun j => A i j * lift r P y0 j) = lam * lift r P y0 i) ->
+  forall k, (k < r)%nat -> sum r (fun l => microM n P A k l * y0 l) = lam * y0 k.
+Proof. intros HP Hx. exact (fixed_point_eigen n r P A y0 HP lam Hx). Qed.
+Print Assumptions C08_fixed_point.
